@@ -1,8 +1,9 @@
 /-
 Lemmas for Producer.Zip (C17): the zip crate's index has pairwise distinct names; the listing of a
 raw archive has pairwise distinct canonical paths (so `WF` holds for zips by construction);
-`canonName` is idempotent; when no two entries of the index share a canonical spelling the listing
-is exactly "every listable entry under its canonical name with its own bytes".
+`canonName` is idempotent; the listing is the reference listing `zipFirst` (fix 99c0f28); when no
+two entries of the index share a canonical spelling it is exactly "every listable entry under its
+canonical name with its own bytes".
 -/
 import GrcovModel.Producer.Zip
 import GrcovModel.Lemmas.Producer
@@ -238,43 +239,76 @@ theorem CanonDistinct.eq_of {ix : List RawEntry} (h : CanonDistinct ix) {a b : R
       (fun x y hxy c hy hx => hxy c hx hy) h a ha b hb hab
     exact absurd hcb (this c hca)
 
-theorem zipIndex_self {ix : List RawEntry} (h : CanonDistinct ix) {e : RawEntry} (he : e ∈ ix)
-    {c : Name} (hc : canonName e.name = some c) : zipIndex ix c = some e := by
-  unfold zipIndex
-  cases hf : ix.find? (fun x => x.name = c) with
-  | some x =>
-    have hx := List.find?_some hf
-    have hxm := List.mem_of_find?_eq_some hf
-    simp only [decide_eq_true_eq] at hx
-    have hcx : canonName x.name = some c := by rw [hx]; exact canonName_idem hc
-    rw [h.eq_of hxm he hcx hc]
-  | none =>
-    simp only
-    cases hg : ix.find? (fun x => canonName x.name = some c) with
-    | none =>
-      have := List.find?_eq_none.1 hg e he
-      simp [hc] at this
-    | some x =>
-      have hx := List.find?_some hg
-      have hxm := List.mem_of_find?_eq_some hg
-      simp only [decide_eq_true_eq] at hx
-      rw [h.eq_of hxm he hx hc]
+theorem find?_append_hit {α : Type} (p : α → Bool) (pre : List α) (e : α) (rest : List α)
+    (hpre : ∀ x ∈ pre, p x = false) (he : p e = true) : (pre ++ e :: rest).find? p = some e := by
+  rw [List.find?_append, List.find?_eq_none.2 (fun x hx => by simp [hpre x hx])]
+  simp [List.find?_cons, he]
 
-theorem listGo_eq_firstGo {ix : List RawEntry} (h : CanonDistinct ix) (seen : List Name)
-    (es : List RawEntry) (hsub : ∀ e ∈ es, e ∈ ix) : listGo ix seen es = firstGo seen es := by
-  induction es generalizing seen with
+/-- the listing is the reference listing: the entry `zip_index` finds under a listed name is the
+listed entry itself. `pre` are the entries already walked; every listable one of them has its
+canonical spelling in `seen`. -/
+theorem listGo_eq_firstGo_gen (pre : List RawEntry) (seen : List Name) (es : List RawEntry)
+    (hinv : ∀ x ∈ pre, rawIsDir x.name = false → ∀ c, canonName x.name = some c → c ∈ seen) :
+    listGo (pre ++ es) seen es = firstGo seen es := by
+  induction es generalizing pre seen with
   | nil => rfl
   | cons e es ih =>
-    have hsub' : ∀ x ∈ es, x ∈ ix := fun x hx => hsub x (List.mem_cons_of_mem _ hx)
+    have hsplit : pre ++ e :: es = (pre ++ [e]) ++ es := by simp
     unfold listGo firstGo
     split
-    · exact ih seen hsub'
-    · split
-      · exact ih seen hsub'
+    · rename_i hdir
+      rw [hsplit]
+      apply ih
+      intro x hx hd c hc
+      rcases List.mem_append.1 hx with hx | hx
+      · exact hinv x hx hd c hc
+      · simp at hx; subst hx; rw [hdir] at hd; cases hd
+    · rename_i hdir
+      split
+      · rename_i hnone
+        rw [hsplit]
+        apply ih
+        intro x hx hd c hc
+        rcases List.mem_append.1 hx with hx | hx
+        · exact hinv x hx hd c hc
+        · simp at hx; subst hx; rw [hnone] at hc; cases hc
       · rename_i c hc
         split
-        · exact ih seen hsub'
-        · rw [zipIndex_self h (hsub e (by simp)) hc, ih (c :: seen) hsub']; rfl
+        · rename_i hs
+          rw [hsplit]
+          apply ih
+          intro x hx hd c' hc'
+          rcases List.mem_append.1 hx with hx | hx
+          · exact hinv x hx hd c' hc'
+          · simp at hx; subst hx
+            rw [hc] at hc'; injection hc' with hc'; subst hc'
+            simpa using hs
+        · rename_i hs
+          have hfind : zipIndex (pre ++ e :: es) c = some e := by
+            unfold zipIndex
+            apply find?_append_hit
+            · intro x hx
+              cases hd : rawIsDir x.name
+              · by_cases hcx : canonName x.name = some c
+                · exact absurd (hinv x hx hd c hcx) (by simpa using hs)
+                · simp [hcx]
+              · simp
+            · simp [hdir, hc]
+          rw [hfind]
+          have : listGo (pre ++ e :: es) (c :: seen) es = firstGo (c :: seen) es := by
+            rw [hsplit]
+            apply ih
+            intro x hx hd c' hc'
+            rcases List.mem_append.1 hx with hx | hx
+            · exact List.mem_cons_of_mem _ (hinv x hx hd c' hc')
+            · simp at hx; subst hx
+              rw [hc] at hc'; injection hc' with hc'; subst hc'
+              simp
+          rw [this]; rfl
+
+theorem zipListed_eq_zipFirst (es : List RawEntry) : zipListed es = zipFirst es := by
+  unfold zipListed zipFirst listIx
+  exact listGo_eq_firstGo_gen [] [] (crateIndex es) (by simp)
 
 /-- the file an entry is listed as: canonical path, its own first bytes, its own content -/
 def RawEntry.toFile (e : RawEntry) : File := ⟨(canonName e.name).getD [], e.head, e.cid⟩
@@ -316,7 +350,9 @@ theorem firstGo_of_distinct (seen : List Name) (es : List RawEntry) (h : CanonDi
 theorem listIx_of_distinct (ix : List RawEntry) (h : CanonDistinct ix) :
     listIx ix = (ix.filter listable).map RawEntry.toFile := by
   unfold listIx
-  rw [listGo_eq_firstGo h [] ix (fun _ he => he), firstGo_of_distinct [] ix h (by simp)]
+  have := listGo_eq_firstGo_gen [] [] ix (by simp)
+  simp only [List.nil_append] at this
+  rw [this, firstGo_of_distinct [] ix h (by simp)]
 
 /-! ### `WF` for layouts with raw zips -/
 
